@@ -179,6 +179,14 @@ func toNative(fr *frame, v Val, rt reflect.Type) reflect.Value {
 			return reflect.Zero(rt)
 		}
 		if p, ok := v.(*Val); ok && (rt == bigIntRT || rt == bigRatRT || rt == bigFloatRT) {
+			// the same cell passed twice (z.Lsh(z, n), z.Add(z, y)): hand the callee the same native
+			// object, as Go does; two copies would make the write-back of the unchanged copy
+			// overwrite the result
+			for _, a := range bigArgs[bigCurStart:] {
+				if a.cell == p && a.nat.Type() == rt {
+					return a.nat
+				}
+			}
 			if nat, ok := bigToNative(p, rt); ok {
 				bigArgs = append(bigArgs, bigArg{p, nat})
 				return nat
@@ -480,6 +488,9 @@ func interpError(msg string) Val {
 func callNative(fr *frame, name string, nf reflect.Value, args []Val, sig *types.Signature) (res Val) {
 	ft := nf.Type()
 	bigStart := len(bigArgs)
+	savedBigCur := bigCurStart
+	bigCurStart = bigStart
+	defer func() { bigCurStart = savedBigCur }()
 	if pendingBigRecv != nil {
 		bigArgs = append(bigArgs, *pendingBigRecv)
 		pendingBigRecv = nil
@@ -831,6 +842,9 @@ func init() {
 
 var onceDone = map[*Val]bool{}
 var pendingBigRecv *bigArg
+
+// bigCurStart: index in bigArgs where the entries of the native call being marshalled start
+var bigCurStart int
 
 func strBytes2(v Val) []Val {
 	if s, ok := v.([]Val); ok {
